@@ -14,7 +14,7 @@ EXPLANATION = (
     "roles (detach rebuilds the stored parent's list without the node by identity and clears the field; attach appends the "
     "node to the new parent's list and stores that parent; never two parents); W5 an identity test against the new parent "
     "and an identity scan of its ancestor chain precede the first write; W6 no public member returns the mutable list; W7 "
-    "children assignment/deletion write links only through parent assignments; W8 every assert is guarded by "
+    "children assignment/deletion write links only through parent assignments; W9 a value cached from the links (a private memo field filled in a navigation getter) is dropped directly next to every write of those links, with nothing that can run user code or raise in between; W8 every assert is guarded by "
     "config.ASSERTIONS and has a pure test. Exhaustive over the abstract traces (hooks may raise wherever called, loops "
     "unrolled 0..2). Not decided: the induction over all histories itself, and that no assertion can fire."
 )
@@ -28,6 +28,10 @@ ASSUMPTIONS = [
 def run(ctx):
     typer = typer_for(ctx)
     linkrules.rule_W1(ctx)
+    # a value cached from the links (memo field) is dropped together with every change of those links: otherwise the public
+    # `children` view disagrees with the stored links right after a mutation
+    from ..memo import rule_coherence
+    rule_coherence(ctx, "W9")
     linkrules.rule_W6(ctx)
     linkrules.rule_W8(ctx, typer)
     ctx.floor("W1", 10)
